@@ -152,3 +152,146 @@ Proof.
         exact (sio_rel_trans _ _ _ _ _ R12 Hr).
       * eapply sio_mono_trans; [eapply sio_rel_mono; eauto|auto].
 Qed.
+
+Lemma sio_flushbuf_post f ok f' :
+  sio_flushbuf f = (ok, f') -> sio_rel f f' [] /\ sf_rbuf f' = [] /\ (ok = false -> sf_err f' = true).
+Proof. intros H. apply sio_flushbuf_spec in H. tauto. Qed.
+
+(* _IO_new_file_xsputn: with a clear indicator at the end, the whole request was taken *)
+Lemma sio_xsputn_spec B f d r f' :
+  sio_xsputn B f d = (r, f') ->
+  (sf_err f' = false -> r = Some (length d) /\ sio_rel f f' d) /\ sio_mono f f' /\
+  (forall c, r = Some c -> c <= length d).
+Proof.
+  unfold sio_xsputn.
+  set (n := length d). set (room := B - length (sf_rbuf f)).
+  set (cm := if sf_put f then if sf_line f then if n <=? room then match sio_last_nl d with Some i => (i, true) | None => (room, false) end
+             else (room, false) else (room, false) else (0, false)).
+  destruct cm as [count must_flush].
+  set (c := Nat.min count n).
+  assert (Hc : c <= n) by apply Nat.le_min_r.
+  pose proof (sio_copy_rel f (firstn c d)) as R1.
+  assert (Hsplit : firstn c d ++ skipn c d = d) by apply firstn_skipn.
+  assert (Hrest : length (skipn c d) = n - c) by (rewrite skipn_length; reflexivity).
+  destruct ((n - c =? 0) && negb must_flush) eqn:E0.
+  - intros H; inversion H; subst; clear H. apply andb_true_iff in E0. destruct E0 as [E0 _]. apply Nat.eqb_eq in E0.
+    assert (c = n) by lia. assert (Hf : firstn c d = d) by (rewrite H; apply firstn_all).
+    rewrite Hf in *. split; [intros _; split; [reflexivity|exact R1]|]. split; [eapply sio_rel_mono; eauto|].
+    intros c0 Hc0; inversion Hc0; subst; lia.
+  - pose proof (sio_set_put_rel (sio_copy f (firstn c d))) as R2.
+    pose proof (sio_rel_trans _ _ _ _ _ R1 R2) as R12. rewrite app_nil_r in R12.
+    destruct (sio_flushbuf (sio_set_put (sio_copy f (firstn c d)))) as [ok f2] eqn:Hf2.
+    apply sio_flushbuf_post in Hf2. destruct Hf2 as (R3 & Hb2 & F3).
+    pose proof (sio_rel_trans _ _ _ _ _ R12 R3) as R123. rewrite app_nil_r in R123.
+    destruct ok; [change (negb true) with false|change (negb false) with true]; cbv iota.
+    2:{ intros H; inversion H; subst; clear H. specialize (F3 eq_refl).
+        split; [congruence|]. split; [eapply sio_rel_mono; eauto|].
+        intros c0. destruct (n - c =? 0); intros Hc0; inversion Hc0; subst; lia. }
+    set (blocks := if 128 <=? B then (n - c) - (n - c) mod B else n - c).
+    assert (Hbl : blocks <= n - c).
+    { subst blocks. destruct (128 <=? B); lia. }
+    set (kw := if blocks =? 0 then (0, f2) else sio_kwrite f2 (firstn blocks (skipn c d))).
+    assert (Hkw : exists a f3, kw = (a, f3) /\ a <= blocks /\ sf_rbuf f3 = [] /\ sio_mono f2 f3 /\
+                  (a < blocks -> sf_err f3 = true) /\
+                  (sf_err f3 = false -> sio_rel f2 f3 (firstn blocks (skipn c d)))).
+    { subst kw. destruct (blocks =? 0) eqn:Eb.
+      - apply Nat.eqb_eq in Eb. exists 0, f2. rewrite Eb. simpl.
+        split; [reflexivity|]. split; [lia|]. split; [exact Hb2|]. split; [apply sio_mono_refl|].
+        split; [intros; lia|]. intros _. apply sio_rel_refl.
+      - destruct (sio_kwrite f2 (firstn blocks (skipn c d))) as [a f3] eqn:Hk.
+        pose proof (sio_kwrite_rel _ _ _ _ Hb2 Hk) as [Rk Hb3].
+        apply sio_kwrite_spec in Hk. destruct Hk as (K1 & _ & _ & _ & _ & K6 & _).
+        assert (Hl : length (firstn blocks (skipn c d)) = blocks) by (rewrite firstn_length, Hrest; lia).
+        exists a, f3. rewrite Hl in *.
+        split; [reflexivity|]. split; [exact K1|]. split; [exact Hb3|]. split; [eapply sio_rel_mono; eauto|].
+        split; [exact K6|]. intros _. exact Rk. }
+    destruct Hkw as (a & f3 & Ekw & Ha & Hb3 & M3 & Fa & R4). rewrite Ekw.
+    destruct (a <? blocks) eqn:Ea.
+    + apply Nat.ltb_lt in Ea. intros H; inversion H; subst; clear H. specialize (Fa Ea).
+      split; [congruence|]. split; [eapply sio_mono_trans; [eapply sio_rel_mono; eauto|auto]|].
+      intros c0 Hc0; inversion Hc0; subst. lia.
+    + apply Nat.ltb_ge in Ea.
+      destruct (sio_putchars B B f3 (skipn blocks (skipn c d))) as [cc f4] eqn:Hp.
+      apply sio_putchars_spec in Hp. destruct Hp as (P1 & P2 & P3).
+      assert (Hl2 : length (skipn blocks (skipn c d)) = n - c - blocks) by (rewrite skipn_length, Hrest; reflexivity).
+      intros H; inversion H; subst; clear H. split; [|split].
+      * intros He. destruct (P2 He) as [Hcc R5].
+        assert (He3 : sf_err f3 = false) by exact (sio_rel_err_false _ _ _ R5 He).
+        specialize (R4 He3).
+        pose proof (sio_rel_trans _ _ _ _ _ R123 R4) as R1234.
+        pose proof (sio_rel_trans _ _ _ _ _ R1234 R5) as Rall.
+        rewrite <- app_assoc, firstn_skipn, Hsplit in Rall.
+        split; [|exact Rall]. f_equal. rewrite Hcc, Hl2. fold n. lia.
+      * eapply sio_mono_trans; [eapply sio_rel_mono; eauto|]. eapply sio_mono_trans; eauto.
+      * intros c0 Hc0; inversion Hc0; subst. fold n. lia.
+Qed.
+
+(* the contract qpdf's sinks rely on *)
+Lemma sio_fwrite_spec B f d r f' :
+  sio_fwrite B f d = (r, f') ->
+  r <= length d /\ (sf_err f' = false -> r = length d /\ sio_rel f f' d) /\ sio_mono f f'.
+Proof.
+  unfold sio_fwrite. destruct d as [|b tl].
+  - intros H; inversion H; subst. split; [simpl; lia|]. split; [intros _; split; [reflexivity|apply sio_rel_refl]|apply sio_mono_refl].
+  - destruct (sio_xsputn B f (b :: tl)) as [[c|] f2] eqn:Hx; intros H; inversion H; subst; clear H;
+      apply sio_xsputn_spec in Hx; destruct Hx as (X1 & X2 & X3).
+    + split; [apply X3; reflexivity|]. split; [|exact X2].
+      intros He. apply X1 in He. destruct He as [Hr R]. inversion Hr; subst. split; [reflexivity|exact R].
+    + split; [apply Nat.le_refl|]. split; [|exact X2]. intros He. apply X1 in He. destruct He as [Hr _]. discriminate.
+Qed.
+
+Lemma sio_fflush_spec f ok f' :
+  sio_fflush f = (ok, f') -> sio_rel f f' [] /\ sf_rbuf f' = [] /\ (ok = false -> sf_err f' = true).
+Proof. apply sio_flushbuf_post. Qed.
+
+Lemma sio_fclose_spec f ok f' :
+  sio_fclose f = (ok, f') ->
+  (sf_err f' = false -> sf_err f = false /\ sio_logical f' = sio_logical f) /\ sf_rbuf f' = [] /\
+  (ok = false -> sf_err f' = true) /\ sf_open f' = false /\ (sf_err f = true -> sf_err f' = true) /\
+  (exists x, sio_disk f' = sio_disk f ++ x).
+Proof.
+  unfold sio_fclose. destruct (sio_flushbuf f) as [o f1] eqn:Hf. intros H; inversion H; subst; clear H.
+  apply sio_flushbuf_post in Hf. destruct Hf as ((R1 & R2 & R3 & R4 & R5) & Hb & F). simpl.
+  repeat split; auto.
+  - apply R1; auto.
+  - specialize (R1 H). destruct R1 as [_ R1]. rewrite app_nil_r in R1. rewrite <- R1. rewrite !sio_logical_eq. reflexivity.
+Qed.
+
+(* with an empty buffer the kernel part is everything *)
+Lemma sio_disk_logical f : sf_rbuf f = [] -> sio_disk f = sio_logical f.
+Proof. intros H. rewrite sio_disk_eq, sio_logical_eq, H. simpl. rewrite app_nil_r. reflexivity. Qed.
+
+Lemma sio_new_logical cap line : sio_logical (sio_new cap line) = [] /\ sf_err (sio_new cap line) = false /\ sf_open (sio_new cap line) = true.
+Proof. repeat split. Qed.
+
+(* The contract of fwrite/fflush/fclose in the stream model, for every buffer size, buffering mode, stream
+   state, capacity and data: the return value never exceeds the request; the error indicator is sticky; the
+   kernel file only grows; and as long as the indicator is clear after the call, the call took everything
+   and nothing handed to the stream so far has been lost (kernel part ++ buffer = everything written). *)
+Lemma stdio_fwrite_contract_lemma : forall B f d r f',
+  sio_fwrite B f d = (r, f') ->
+  r <= length d /\
+  (sf_err f' = false -> r = length d /\ sf_err f = false /\ sio_logical f' = sio_logical f ++ d) /\
+  (sf_err f = true -> sf_err f' = true) /\
+  (exists x, sio_disk f' = sio_disk f ++ x).
+Proof.
+  intros B f d r f' H. apply sio_fwrite_spec in H. destruct H as (H1 & H2 & (M1 & M2 & _)).
+  split; [exact H1|]. split; [|split; [exact M1|exact M2]].
+  intros He. destruct (H2 He) as [Hr (R & _)]. destruct (R He) as [A B0]. auto.
+Qed.
+
+(* fflush / fclose: a reported success with a clear indicator means the kernel has everything; a failure
+   always sets the indicator; the buffer is empty afterwards either way (a failed flush LOSES the data, so a
+   later fflush/fclose succeeds: the reason why looking at the last result only is not enough). *)
+Lemma stdio_flush_close_contract_lemma : forall f ok f',
+  (sio_fflush f = (ok, f') \/ sio_fclose f = (ok, f')) ->
+  sf_rbuf f' = [] /\ (ok = false -> sf_err f' = true) /\
+  (sf_err f' = false -> sf_err f = false /\ sio_disk f' = sio_logical f) /\
+  (sf_err f = true -> sf_err f' = true).
+Proof.
+  intros f ok f' [H|H].
+  - apply sio_fflush_spec in H. destruct H as ((R1 & R2 & _) & Hb & F). split; [exact Hb|]. split; [exact F|]. split; [|exact R2].
+    intros He. destruct (R1 He) as [A L]. rewrite app_nil_r in L. split; [exact A|]. rewrite (sio_disk_logical _ Hb). exact L.
+  - apply sio_fclose_spec in H. destruct H as (C1 & Hb & F & _ & S & _). split; [exact Hb|]. split; [exact F|]. split; [|exact S].
+    intros He. destruct (C1 He) as [A L]. split; [exact A|]. rewrite (sio_disk_logical _ Hb). exact L.
+Qed.
